@@ -5,6 +5,11 @@ output cell, a plan term over `P<j>` (`univariates[j].percent_point`), `H` (`sci
 `D<k>.<i>` (entry `[i, k]` of what `np.random.multivariate_normal` returned) and literals.  The harness
 records the real `multivariate_normal` call made during the real `sample(n)`, interprets the plan with
 the REAL fitted univariates and requires bit-equality with the real output, column by column.
+Translator tie (GEN_TARGETS): `Gen/GaussCond.lean` (`_get_normal_samples`, `sample`; C01 = the call with
+`conditions=None`) and `Gen/GaussTransform.lean` (`_fit_columns`) are regenerated from the source on every run,
+`Props/C01b.lean` proves generated = model and restates the C01 theorems over the generated definitions, and the driver
+answers the same requests from the generated definitions (`gs genfit / genargs / gensample`: obligations
+`tv:GaussTransform`, `tv:GaussCond`).
 Search: the property's own statement on the real code (schema; KS of `sample(20000)` against the fitted
 marginal, DKW band; Kendall tau of sampled pairs == tau of the draws, and within a Hoeffding band of
 (2/pi) asin(rho); Gaussian-copula recovery experiment in deep mode)."""
@@ -20,7 +25,7 @@ import vcommon as vc
 
 warnings.filterwarnings('ignore')
 
-GEN_TARGETS = ()
+GEN_TARGETS = ('GaussCond', 'GaussTransform')
 DRIVER_MAIN = 'Main/GaussSample.lean'
 DRIVER_TARGETS = ['CopVerif.Driver.GaussSample']
 ALWAYS_SEARCH = True
@@ -999,7 +1004,10 @@ def brute_counts(xs, ys):
 # --------------------------------------------------------------------------------------------- the tie
 def run(ctx, lean):
     names = ['corr:fit-columns', 'corr:draw-request', 'corr:draw-replay', 'corr:sample-plan', 'corr:schema',
-             'corr:kendall-sample', 'corr:kendall-counter', 'assume:quantile-pair', 'assume:norm-cdf']
+             'corr:kendall-sample', 'corr:kendall-counter', 'assume:quantile-pair', 'assume:norm-cdf',
+             # translation validation: the same requests answered from the definitions GENERATED from the source
+             # (Gen.GaussTransform.fitColumns; Gen.GaussCond.samplerArgs / sample with conditions = None) vs the real code
+             'tv:GaussTransform', 'tv:GaussCond']
     if lean is None:
         for nm in names:
             ctx.ob(nm, False, 'tie', 'driver unavailable')
@@ -1060,26 +1068,46 @@ def tie_case(ctx, lean, case, ns, note):
         if rq is not None and type(u).__name__ != rq:
             ctx.count('fallback-used')
     # --- fit: labels in order + which columns are constant
-    reply = lean.ask(table_request('fit', case))
-    ws = reply.split()
     real_cols = [enc_label(c) for c in model.columns]
-    ok_fit = ws[:1] == ['ok'] and len(ws) == 1 + 2 * d
-    if ok_fit:
-        mcols, mun = ws[1::2], ws[2::2]
-        ok_fit = mcols == real_cols and len(unis) == d
-        for j in range(d if ok_fit else 0):
-            if mun[j].startswith('C'):
-                # the model says: trained on constant c => percent_point is constantly c
-                c = vc.h2f(mun[j][1:])
-                p = np.asarray(unis[j].percent_point(np.array([0.001, 0.25, 0.75, 0.999])), dtype=float)
-                ok_fit = ok_fit and bits_equal(p, np.full(4, c))
-            else:
-                # the model says: > 1 distinct training values => an ordinary (external) fit, never the constant one
-                ok_fit = ok_fit and mun[j] == 'E%d' % j and not has_constant_override(unis[j])
-    if not ok_fit:
+
+    def fit_reply_ok(reply):
+        ws = reply.split()
+        ok_fit = ws[:1] == ['ok'] and len(ws) == 1 + 2 * d
+        if ok_fit:
+            mcols, mun = ws[1::2], ws[2::2]
+            ok_fit = mcols == real_cols and len(unis) == d
+            for j in range(d if ok_fit else 0):
+                if mun[j].startswith('C'):
+                    # the model says: trained on constant c => percent_point is constantly c
+                    c = vc.h2f(mun[j][1:])
+                    p = np.asarray(unis[j].percent_point(np.array([0.001, 0.25, 0.75, 0.999])), dtype=float)
+                    ok_fit = ok_fit and bits_equal(p, np.full(4, c))
+                else:
+                    # the model says: > 1 distinct training values => an ordinary (external) fit, never the constant one
+                    ok_fit = ok_fit and mun[j] == 'E%d' % j and not has_constant_override(unis[j])
+        return ok_fit
+
+    reply = lean.ask(table_request('fit', case))
+    if not fit_reply_ok(reply):
         note('corr:fit-columns', {'model': reply[:200], 'real_columns': real_cols,
                                   'real_constant_override': [has_constant_override(u) for u in unis],
                                   'case': brief(case)})
+    # the same from the GENERATED `_fit_columns` (state `genFitted` of Lemmas/GaussSampleGen.lean)
+    greply = lean.ask(table_request('genfit', case))
+    ctx.count('tv:genfit')
+    if not fit_reply_ok(greply):
+        note('tv:GaussTransform', {'generated': greply[:200], 'real_columns': real_cols,
+                                   'real_constant_override': [has_constant_override(u) for u in unis],
+                                   'case': brief(case)})
+    # what the GENERATED `_get_normal_samples(n, None)` hands to the RNG: zeros, the stored correlation entry by entry,
+    # the frame of draws labelled with the training columns (the real call is checked against the same under
+    # corr:draw-request below)
+    areply = lean.ask(table_request('genargs', case))
+    ctx.count('tv:genargs')
+    want_args = ('ok %d mean ' % d + ' '.join(['0'] * d) + ' cov '
+                 + ' '.join('R%d.%d' % (i, j) for i in range(d) for j in range(d)) + ' cols ' + ' '.join(real_cols))
+    if areply.split() != want_args.split():
+        note('tv:GaussCond', {'generated_sampler_args': areply[:300], 'real': want_args[:300], 'case': brief(case)})
     if real_cols != [enc_label(x) for x in case['labels']]:
         return        # corr:fit-columns is broken; the index-based comparisons below would be misaligned
     status = [col_status(unis[j], case['cols'][j]) if j < len(unis) else 'const' for j in range(d)]
@@ -1142,6 +1170,29 @@ def tie_case(ctx, lean, case, ns, note):
                     raise ValueError('column %d (%r): %s; plan %s' % (j, dec_label(lab), first_diff(want, got), cells[:1]))
         except Exception as e:  # noqa
             note('corr:sample-plan', {'diff': str(e)[:380], 'case': brief(case, n=n)})
+            pcols = None
+        # the plan of the GENERATED `sample(n)` (Gen.GaussCond.sample with conditions = None) against the real output
+        greply = lean.ask(table_request('gensample', case, n))
+        ctx.count('tv:gensample')
+        try:
+            gd_, gn, gcols = parse_plan(greply)
+            if (gd_, gn) != (d, n):
+                raise ValueError(f'generated code requests mvn {gd_} x {gn}, real call was {d} x {n}')
+            if [lab for lab, _ in gcols] != [enc_label(c) for c in out.columns]:
+                raise ValueError('labels: generated %s real %s' % ([lab for lab, _ in gcols], [enc_label(c) for c in out.columns]))
+            if pcols is not None and gcols == pcols:
+                # term for term the plan just interpreted with the real objects and found bit-equal to the real output
+                ctx.count('tv:gensample-plan-identical-to-verified-model-plan')
+            else:
+                for j, (lab, cells) in enumerate(gcols):
+                    want = interpret_column(cells, unis, draws)
+                    got = out.iloc[:, j].to_numpy()
+                    if not bits_equal(want, got):
+                        raise ValueError('column %d (%r): %s; plan %s' % (j, dec_label(lab), first_diff(want, got), cells[:1]))
+                ctx.count('tv:gensample-plan-interpreted')
+        except Exception as e:  # noqa
+            note('tv:GaussCond', {'diff': str(e)[:380], 'case': brief(case, n=n)})
+        if pcols is None:
             continue
         # norm.cdf on the recorded draws: strictly increasing, inside (0,1)
         zs = np.sort(draws.ravel())
